@@ -1001,7 +1001,7 @@ def run(ctx):
     tick(ctx, "parse_exports", t0)
     # ---- 2. replay through the binary
     sel_chosen = sel_choose(ctx, sel_cases, len(sel_cases) if thorough else 1600)
-    rec_chosen = rec_choose(ctx, rec_cases, 9000 if thorough else 600)
+    rec_chosen = rec_choose(ctx, rec_cases, 7000 if thorough else 600)
     if ctx.replay:
         sel_chosen, rec_chosen = replay_filter(ctx, sel_cases, rec_cases)
     t0 = time.time()
@@ -1020,8 +1020,8 @@ def run(ctx):
     tick(ctx, "judge", t0)
     # ---- 3. code -> spec: hook traces against the contract
     t0 = time.time()
-    sel_events = thin(ctx, sel_events, 30000 if thorough else 900)
-    rec_events = thin(ctx, rec_events, 30000 if thorough else 1200)
+    sel_events = thin(ctx, sel_events, 20000 if thorough else 900)
+    rec_events = thin(ctx, rec_events, 20000 if thorough else 1200)
     if sel_events:
         def flip_gen(evs):
             for e in evs:
@@ -1092,7 +1092,7 @@ def run(ctx):
     tick(ctx, "trace_validation", t0)
     t0 = time.time()
     whole = [r[3] for k, r in results if k == "sel"] + [x for k, r in results if k == "rec" for x in (r[4], r[5])]
-    run_level_trace(ctx, "C07", whole, 300000 if thorough else 30000)
+    run_level_trace(ctx, "C07", whole, 200000 if thorough else 30000)
     tick(ctx, "run_level_trace", t0)
     ctx.cov["distinct_nontrivial"] = len(sel_cases) + len(rec_cases)
     ctx.cov["recursive_worlds_exported"] = len(rec_cases)
